@@ -438,6 +438,63 @@ func c13Overlap(c *C) {
 	c.Nontrivial(fmt.Sprintf("overlap:%d:%d:%v", dA, dB, imported))
 }
 
+// c13ImportPlaces: the import tag (like the macro tag) may stand anywhere and be executed many times within one
+// execution - in a with inside a loop, in an inner loop, in a macro body that is called repeatedly, in an included
+// partial. Wherever it stands, the imported or aliased macro renders what the same macro defined locally at that place
+// renders (its body reads a name bound by the enclosing construct).
+func c13ImportPlaces(c *C) {
+	r := c.R
+	body := r.Pick([]string{"[{{ a }}:{{ fv }}]", "[{{ a }}:{{ fv }}:{{ fv|upper }}{% if fv %}+{% endif %}]", "[{% for q in one %}{{ a }}{{ fv }}{% endfor %}]"})
+	params := r.Pick([]string{"a", "a, b=fv", "a=fv"})
+	places := []string{
+		"{% for w in wl %}{% with fv=w %}@DEF@{{ @M@(forloop.Counter) }}{% endwith %}{% endfor %}",
+		"{% for o in wl %}{% for fv in wl %}@DEF@{{ @M@(o) }}{% endfor %};{% endfor %}",
+		"{% macro outer(fv) %}@DEF@{{ @M@(1) }}{% endmacro %}{{ outer(\"x\") }}{{ outer(\"y\") }}{{ outer(wl.2) }}",
+		"{% for fv in wl %}{% include \"/part.tpl\" %}{% endfor %}",
+		"{% for w in wl %}{% with fv=w %}{% filter cut:\"~\" %}@DEF@{{ @M@(w) }}{% endfilter %}{% endwith %}{% endfor %}@DEF@{{ @M@(0) }}",
+		"{% for w in wl %}{% if forloop.Counter > 1 %}{% with fv=w %}@DEF@{{ @M@(w) }}{% endwith %}{% endif %}{% endfor %}",
+	}
+	place := places[r.Intn(len(places))]
+	local := "{% macro show(" + params + ") %}" + body + "{% endmacro %}"
+	lib := "{% macro show(" + params + ") export %}" + body + "{% endmacro %}{% macro other() export %}OTHER{% endmacro %}"
+	variants := []struct{ name, def, call string }{
+		{"local", local, "show"}, {"imported", `{% import "/lib.tpl" show %}`, "show"}, {"aliased", `{% import "/lib.tpl" show as sh %}`, "sh"},
+		{"imported in a list", `{% import "/lib.tpl" other, show %}`, "show"}, {"aliased in a list", `{% import "/lib.tpl" other as o2, show as sh2 %}`, "sh2"},
+	}
+	var outs []string
+	var srcs []D
+	for _, v := range variants {
+		fill := func(s string) string { return strings.ReplaceAll(strings.ReplaceAll(s, "@DEF@", v.def), "@M@", v.call) }
+		files := map[string]string{"/lib.tpl": lib, "/part.tpl": fill("@DEF@{{ @M@(2) }}"), "/main.tpl": fill(place)}
+		set, _ := newSet(files)
+		tpl, err := set.FromFile("/main.tpl")
+		if err != nil {
+			c.Fail("compile-error", D{"variant": v.name, "files": files, "error": err.Error()})
+			return
+		}
+		res := ""
+		for run := 0; run < 2; run++ {
+			out, xerr := execSpread(tpl, pongo2.Context{"wl": []string{"x", "y", "z"}, "one": []int{1}, "fv": "CTX"}, uint64(c.Idx+run))
+			c.Eval(1)
+			res += out + " err=" + errStr(xerr) + " // "
+		}
+		outs = append(outs, res)
+		srcs = append(srcs, D{"variant": v.name, "main": files["/main.tpl"], "part": files["/part.tpl"], "result_of_two_executions": res})
+	}
+	for i := 1; i < len(outs); i++ {
+		if outs[i] != outs[0] {
+			c.Fail("imported-differs-from-local", D{"lib": lib, "variants": srcs, "differs": variants[i].name, "why": "the import tag stands where the local definition stands and is executed as often"})
+			return
+		}
+	}
+	if !strings.Contains(outs[0], "y") || !strings.Contains(outs[0], "z") {
+		c.Fail("binding", D{"variants": srcs, "why": "the local macro does not see the bindings of the enclosing with / for / macro"})
+		return
+	}
+	c.Cover("import_tag_executed_repeatedly_in_changing_scopes")
+	c.Nontrivial("importplaces:" + place + body + params)
+}
+
 func c13Plan(tier string) (rec, bounded, binding int) {
 	rec = len(c13Graphs)
 	if tier == "thorough" {
@@ -462,6 +519,8 @@ func c13Run(c *C) {
 		c13BoundedCase(c, c.Idx-rec)
 	case (c.Idx-rec-bounded)%400 == 3:
 		c13Overlap(c)
+	case (c.Idx-rec-bounded)%40 == 7:
+		c13ImportPlaces(c)
 	default:
 		c13Binding(c)
 	}
